@@ -412,6 +412,23 @@ func c09RunSchedule(cfg [][]string, prefix []int, dir string, code, holdCode *py
 			break
 		}
 		if len(enabled) == 0 {
+			// Before concluding: on a busy machine a goroutine can be seen in a blocking call twice in a row
+			// while it is merely slow. A deadlock stays one: wait two seconds for any sign of life first.
+			if ev, ok := waitEvent(2 * time.Second); ok {
+				handle(ev)
+				continue
+			}
+			alive := false
+			gsNow := goroutineStates()
+			for i, w := range s.workers {
+				if state[i] == 2 && !isBlockedState(gsNow[w.gid]) {
+					state[i] = 0
+					alive = true
+				}
+			}
+			if alive {
+				continue
+			}
 			var bl []string
 			gs := goroutineStates()
 			for i, w := range s.workers {
@@ -588,6 +605,9 @@ func TestC09(t *testing.T) {
 					if n == 0 || (a == "waitdone" && b == "waitdone") {
 						continue
 					}
+					if !c09Sound([][]string{{a, b}, {c}}) {
+						continue // a Done waiter nobody can release: a deadlock of the configuration's own making
+					}
 					cfgs = append(cfgs, [][]string{{a, b}, {c}})
 				}
 			}
@@ -628,18 +648,7 @@ func TestC09(t *testing.T) {
 			cfg[g.N(3)][0] = "close"
 		}
 		// soundness: a Done waiter needs a Close that does not itself wait first in the same script
-		free := false
-		for _, script := range cfg {
-			for _, op := range script {
-				if op == "waitdone" {
-					break
-				}
-				if op == "close" {
-					free = true
-				}
-			}
-		}
-		if !free {
+		if !c09Sound(cfg) {
 			for _, script := range cfg {
 				for k, op := range script {
 					if op == "waitdone" {
@@ -669,6 +678,26 @@ func TestC09(t *testing.T) {
 			}
 		}
 	})
+}
+
+// c09Sound: every Done waiter can be released - some script reaches a Close without waiting on Done first
+// (or nobody waits at all)
+func c09Sound(cfg [][]string) bool {
+	waits := false
+	free := false
+	for _, script := range cfg {
+		blocked := false
+		for _, op := range script {
+			if op == "waitdone" {
+				waits = true
+				blocked = true
+			}
+			if (op == "close" || op == "close2") && !blocked {
+				free = true
+			}
+		}
+	}
+	return free || !waits
 }
 
 func init() {
